@@ -67,6 +67,10 @@ var foreignRoots = map[string]bool{"Call": true, "Mock": true, "mock": true}
 var foreignMethods = map[string]bool{"Called": true, "MethodCalled": true, "On": true, "AssertExpectations": true, "AssertCalled": true, "AssertNotCalled": true,
 	"AssertNumberOfCalls": true, "Test": true, "TestData": true, "IsMethodCallable": true}
 
+// promoted methods of mock.Mock that take no lock (testify v1.10.0): calling one is touching
+// testify's state without its mutex
+var foreignUnlocked = map[string]bool{"TestData": true}
+
 func (in *instr) foreignPath(p string) bool {
 	if !in.testify {
 		return false
@@ -133,7 +137,11 @@ func (in *instr) collect(e ast.Node, write bool, out *[]access) {
 		if sel, ok := x.Fun.(*ast.SelectorExpr); ok && in.testify {
 			p, isChain := in.chain(sel)
 			if (isChain && (in.foreignPath(p) || foreignMethods[p])) || (!isChain && foreignMethods[sel.Sel.Name]) {
-				*out = append(*out, access{path: sel.Sel.Name, foreign: "call"})
+				kind := "call"
+				if foreignUnlocked[sel.Sel.Name] {
+					kind = "direct"
+				}
+				*out = append(*out, access{path: sel.Sel.Name + "()", write: true, foreign: kind})
 				if !isChain {
 					in.collect(sel.X, false, out)
 				}
